@@ -21,7 +21,7 @@
 //	                          appended by the immediately preceding op, drop the live engine,
 //	                          open a fresh Engine on the copy
 //	ccrash kind i j point n   compaction whose directory image is taken at the n-th hit of
-//	                          verifPoint(point); then as crash
+//	                          verifPoint(point); then as crash (invalid group: plain `crash clean`)
 //	dcrash s,.. lo hi         delete whose directory image is taken at delete.afterTombstones
 package eng
 
@@ -52,7 +52,7 @@ var SeriesKeys = []string{"m0,t=a", "m0,t=b", "m1,t=a", "m1,t=c"}
 var FieldNames = []string{"f", "i", "u", "s", "b"}
 var fieldTypes = []influxql.DataType{influxql.Float, influxql.Integer, influxql.Unsigned, influxql.String, influxql.Boolean}
 
-const stepWait = 20 * time.Second
+const stepWait = 60 * time.Second
 
 // ---------------------------------------------------------------- hook dispatcher
 
@@ -846,7 +846,8 @@ func disarm() {
 func (g *Eng) ccrash(t []string) string {
 	grp, ok := g.group(t[1], t[2])
 	if !ok {
-		return "err:group"
+		// no such group: nothing is compacted, the image is the current state
+		return g.crash("clean")
 	}
 	n, err := strconv.Atoi(t[4])
 	if err != nil || n < 1 {
